@@ -153,7 +153,7 @@ def worker(task):
             if ob['result'] != 'sat':
                 continue
             model, A_, hyps, goal, meta = models[ob['name']]
-            ob['model'] = summarize_model(model, A_)
+            ob['model'] = summarize_model(model, A_) if model is not None else f"(no model text: sat reported by {ob['backend']})"
             known = match_known(pid, ob['name'])
             if known:
                 # known-finding carve-out: re-check with the recorded witness class excluded (DESIGN section 6)
@@ -165,7 +165,9 @@ def worker(task):
                 if r2['model'] is not None:
                     model = r2['model']
                     ob['model'] = summarize_model(model, A_)
-            if meta.get('kind') in ('return', 'raise'):
+            if model is None:
+                ob['replay'] = write_unreplayed(pid, c, ob['name'], goal, f"sat reported by {ob['backend']} on the exported query; the in-process solver produced no model within its budget")
+            elif meta.get('kind') in ('return', 'raise'):
                 ob['replay'] = replay_obligation(pid, c, ob['name'], model, A_, hyps, goal, meta, str(model))
             else:
                 ob['replay'] = write_unreplayed(pid, c, ob['name'], goal, str(model))
